@@ -22,7 +22,7 @@ ANCHORS = ["decaylanguage.decay.viewer:DecayChainViewer._build_decay_graph", "de
 WORKERS = {"quick": 4, "thorough": 16}
 REQUIRED = {"line-without-daughters": 5, "branching-fraction-zero": 10, "table>=4-lines-distinct-bf": 20, "leaf-line-daughters-unsorted": 20, "repeated-decaying-daughter": 10, "empty-table-daughter": 10,
             "from-class-representation": 10, "evtgen-specific-name": 20, "alias-or-unknown-name": 20, "depth>=3": 10, "daughters>=5-in-ported-node": 5,
-            "graphs-in-one-process>=3": 1, "same-lists-in-both-node-roles": 10, "two-lines-same-daughters-same-bf": 5, "dot-accepted": 50, "graph-made-in-a-worker-thread": 10, "branching-fraction-with>12-significant-digits": 20}
+            "graphs-in-one-process>=3": 1, "same-lists-in-both-node-roles": 10, "two-lines-same-daughters-same-bf": 5, "dot-accepted": 50, "graph-made-in-a-worker-thread": 10, "evtgen-specific-spelling-drawn": 20, "branching-fraction-with>12-significant-digits": 20}
 ASSUMPTIONS = ["Graphviz `dot` and the particle package's LaTeX->HTML name conversion are trusted", "labels contain no '<' or '&' (label alphabet)",
                "the root identifier 'mother' is per graph; uniqueness across graphs is required of the per-line nodes"]
 
@@ -249,6 +249,14 @@ def run(ctx):
                             ln["bf"] = r.choice(["0.3333333333333333", "0.30000000000000004", "0.6070566666665668", "0.0596100000001", "1e-15", "0.123456789012345",
                                                  "0.1234567890123", "2.2250738585072014e-308", "0.99999999999999"])
                             ctx.hit("branching-fraction-with>12-significant-digits")
+        if i % 3 == 1:
+            # names whose EvtGen spelling differs most from what is drawn: anti-diquarks, excited and primed states
+            for st in stmts:
+                if st["k"] == "Decay":
+                    for ln in st["lines"]:
+                        if r.random() < 0.25:
+                            ln["fs"].append(r.choice(["anti-cs_0", "anti-ud_1", "anti-su_0", "cs_0", "ud_1", "anti-uu_1", "anti-bd_1", "eta'", "anti-K*0", "K'_10", "anti-Lambda_c-"]))
+                            ctx.hit("evtgen-specific-spelling-drawn")
         if i % 4 == 1:
             for st in stmts:
                 if st["k"] == "Decay" and st["lines"] and r.random() < 0.5:
